@@ -106,6 +106,7 @@ type Fake struct {
 	leader    int
 	logStart  int64
 	logEnd    int64
+	lso       int64 // last stable offset reported by data answers when below the high watermark; -1: = high watermark
 	gen       int
 	conns     map[int]*sconn
 	nextID    int
@@ -124,6 +125,7 @@ func NewFake(topic string, fetchVersion int, logStart, logEnd int64) *Fake {
 		Topic:    topic,
 		version:  fetchVersion,
 		leader:   1,
+		lso:      -1,
 		logStart: logStart,
 		logEnd:   logEnd,
 		conns:    map[int]*sconn{},
@@ -155,6 +157,10 @@ func (f *Fake) SetLeader(id int)        { f.mu.Lock(); f.leader = id; f.mu.Unloc
 func (f *Fake) Leader() int             { f.mu.Lock(); defer f.mu.Unlock(); return f.leader }
 func (f *Fake) SetLog(start, end int64) { f.mu.Lock(); f.logStart, f.logEnd = start, end; f.mu.Unlock() }
 func (f *Fake) FailNextDials(n int)     { f.mu.Lock(); f.failDials = n; f.mu.Unlock() }
+
+// SetLSO: an open transaction on the partition: data answers (fetch v4+) report this last stable
+// offset when it is below their high watermark (-1: none, last stable offset = high watermark).
+func (f *Fake) SetLSO(o int64) { f.mu.Lock(); f.lso = o; f.mu.Unlock() }
 
 // ---- dialling ----
 
@@ -498,8 +504,12 @@ func (p *PendingFetch) RespondDataFrameCut(hwm int64, msgset []byte, declaredSiz
 	sc, f := p.sc, p.sc.f
 	f.mu.Lock()
 	ls := f.logStart
+	lso := hwm
+	if f.lso >= 0 && f.lso < hwm {
+		lso = f.lso
+	}
 	f.mu.Unlock()
-	body := append(fetchHeader(p.Version, p.corr, f.Topic, 0, hwm, hwm, ls, int32(declaredSize)), msgset...)
+	body := append(fetchHeader(p.Version, p.corr, f.Topic, 0, hwm, lso, ls, int32(declaredSize)), msgset...)
 	frame := make([]byte, 4+len(body))
 	binary.BigEndian.PutUint32(frame, uint32(len(body)))
 	copy(frame[4:], body)
